@@ -182,6 +182,10 @@ package ice
 //@   opt nosafety
 //@   loop 1 invariant not-found-so-far: rangeindex + 1 <= len(c.extensions) && c.extensions == old(c.extensions) && forall j int :: 0 <= j && j <= rangeindex ==> c.extensions[j].Key != ext.Key
 //@   ensures only-an-empty-key-the-reserved-raddr-or-an-unknown-tcp-type-is-refused: ext.Key != "" && ext.Key != "tcptype" && ext.Key != "raddr" ==> result == nil
+//@   ghostvar parsedT TCPType = TCPTypeUnspecified
+//@   site call NewTCPType#1 assert C16 interprets-the-value-of-the-tcptype-extension: arg0 == ext.Value
+//@   site call NewTCPType#1 ghost parsedT := result
+//@   ensures C16 a-tcptype-extension-sets-the-tcp-type-it-names-and-an-unknown-one-is-refused: ext.Key == "tcptype" ==> (result == nil) == (parsedT != TCPTypeUnspecified) && (result == nil ==> c.tcpType == parsedT) && (result != nil ==> c.tcpType == old(c.tcpType))
 //@   ensures C16 a-key-the-parser-would-read-as-the-related-address-is-refused: ext.Key == "raddr" ==> result != nil && c.extensions == old(c.extensions)
 //@   ensures an-accepted-extension-is-stored-with-its-value: ext.Key != "" && ext.Key != "tcptype" && ext.Key != "raddr" ==> exists j int :: 0 <= j && j < len(c.extensions) && c.extensions[j].Key == ext.Key && c.extensions[j].Value == ext.Value
 //@ func (*Agent).setCandidateExtensions
